@@ -292,12 +292,19 @@ pub fn draw_opts(rng: &mut ChaCha8Rng) -> Opts {
             mutators.push("all".into());
         }
         _ => {
+            // any order; one list in three may repeat a name (the library registers what it is given,
+            // in the order given - so must the front ends)
             let n = rng.random_range(1..=4);
+            let repeats = rng.random_range(0..3) == 0;
             for _ in 0..n {
                 let m = MUT_NAMES[rng.random_range(0..7)].to_string();
-                if !mutators.contains(&m) {
+                if repeats || !mutators.contains(&m) {
                     mutators.push(m);
                 }
+            }
+            if repeats && mutators.len() >= 2 {
+                let first = mutators[0].clone();
+                mutators.push(first);
             }
         }
     }
